@@ -3,7 +3,7 @@ are keyed by qualified function name and loop ordinal and are matched against
 the source re-read from the working tree on every run."""
 import importlib
 
-MODULES = ["common", "debug_c", "futures_c", "batching_c", "scheduler_c", "async_task_c", "contexts_c", "generator_c", "tools_c", "decorators_c"]
+MODULES = ["common", "debug_c", "futures_c", "batching_c", "scheduler_c", "async_task_c", "contexts_c", "generator_c", "tools_c", "decorators_c", "diag_c"]
 
 
 def load(reg, repo):
